@@ -132,7 +132,12 @@ def run_jobs(jobs, njobs, progress=None, wall=None, stop_on_prop=None):
                     results[i] = dict(rr)
                 stop.set()
                 continue
+            again = [i for i, r in zip(idxs, rr['results']) if r.get('retry')]
+            if again:
+                q.put((again, prop, batch))  # the child was poisoned by a run that hung: these seeds were not run
             for i, r in zip(idxs, rr['results']):
+                if r.get('retry'):
+                    continue
                 results[i] = r
                 if stop_on_prop and any(v['property'] == stop_on_prop and not match_known(_KNOWN, v) for v in r.get('violations') or []):
                     stop.set()  # sensitivity self-test: the first violation is all that is asked for
@@ -236,7 +241,7 @@ def finish(prop, tier, seed, P, jobs, results, servers, t0):
 
     def do_shrink(key, serv):
         j, r, v = groups[key]['first']
-        if os.environ.get('VERIF_NO_SHRINK') or (match_known(known, dict(property=prop, rule=key[0], signature=key[1])) and not os.environ.get('VERIF_SHRINK_KNOWN')):
+        if key[0] == 'code_hangs' or os.environ.get('VERIF_NO_SHRINK') or (match_known(known, dict(property=prop, rule=key[0], signature=key[1])) and not os.environ.get('VERIF_SHRINK_KNOWN')):
             shr[key] = {}  # a known finding is re-confirmed, not re-minimised, on every run (VERIF_SHRINK_KNOWN=1 to minimise)
             return
         shr[key] = serv.call(dict(id='shrink', shrink=dict(prop=prop, batch=j['batch'], choices=r['choices'],
